@@ -8,11 +8,10 @@ ID="$1"; TIER="${2:-quick}"
 [ -n "$ID" ] || { echo "usage: run.sh <ID> <quick|thorough> [--replay FILE]" >&2; exit 2; }
 shift; [ $# -gt 0 ] && shift
 VERIF_ROOT="${VERIF_ROOT:-/verif}"; export VERIF_ROOT
-cd "$VERIF_ROOT/harness" || exit 2
 CARGO_NET_OFFLINE=true; export CARGO_NET_OFFLINE
-if ! cargo build --release --offline -q 2>"$VERIF_ROOT/harness/build.log"; then
+if ! (cd "$VERIF_ROOT/harness" && cargo build --release --offline -q 2>"$VERIF_ROOT/harness/build.log"); then
   echo "INCONCLUSIVE property=$ID harness or /repo failed to build (see harness/build.log)"
   grep -E "^error" -A 8 "$VERIF_ROOT/harness/build.log" | head -40
   exit 2
 fi
-exec ./target/release/vcheck "$ID" --tier "$TIER" "$@"
+exec "$VERIF_ROOT/harness/target/release/vcheck" "$ID" --tier "$TIER" "$@"
